@@ -1,58 +1,80 @@
-(* Correspondence judge for C02. A case: a type hint, one input (a str is command-line / config
-   text, anything else a Python object), what yaml_load answered for the strings involved, the
-   observed outcome of the real parser, and — for the compositional half — the observed acceptance
-   of each element under the element type / of the same input under each Union member, and of the
-   same input under every permutation of the Union. *)
-From JV Require Import Lib.Base Model.TyVal Model.Scalar Model.Ty Spec.Conforms Spec.ConformsRx Model.TyLoader.
+(* Correspondence judge for C02. A case: a type hint, one input (a str is command-line / config text, anything else a
+   Python object), what yaml_load answered for the strings involved, the observed outcome of the real parser, and —
+   for the compositional half — side observations (type, input, accepted?): each element under the element type / the
+   same input under each Union member (c_parts), and the same input under variants of the type with the members of one
+   Union permuted (c_perms). *)
+From JV Require Import Lib.Base Model.TyVal Model.Scalar Model.Ty Model.C02TyMut Spec.Conforms Spec.ConformsRx Spec.C02Defs
+  Model.TyLoader Spec.C02Guard Spec.C02Group.
 
-Record case := {
+Record sub := { s_ty : ty; s_in : val; s_acc : bool }.
+
+Record tycase := {
   c_ty : ty; c_in : val; c_oracle : list (str * lres); c_obs : obs;
-  c_parts : option (list bool);
-  c_perms : list bool }.
+  c_parts : option (list sub);
+  c_perms : list sub }.
 
-Definition sound (c : case) : bool :=
+(* ---- the property, judged on the observations alone ------------------------------------------------------------ *)
+Definition sound (c : tycase) : bool :=
   match c_obs c with Accepted w => conforms (c_ty c) w | Rejected => true | Crashed => false end.
 
-Definition never_rejects_shaped (c : case) : bool :=
-  match c_in c with
-  | VStr _ => true          (* text is judged through the channels of C05 *)
-  | v => if shaped (c_ty c) v then is_accepted (c_obs c) else true
-  end.
+Definition never_rejects_shaped (c : tycase) : bool :=
+  if shaped (c_ty c) (c_in c) then is_accepted (c_obs c) else true.
 
-Definition compositional (c : case) : bool :=
+Definition compositional (c : tycase) : bool :=
+  let yl := case_yload (c_oracle c) in
   let acc := is_accepted (c_obs c) in
-  forallb (Bool.eqb acc) (c_perms c) &&
+  forallb (fun s => Bool.eqb acc (s_acc s)) (c_perms c) &&
   match c_parts c with
   | None => true
   | Some ps =>
+      if negb (forallb (fun s => comparable yl (s_in s)) ps) then true
+      else
       match c_ty c, c_in c with
-      | TUnion _, _ => Bool.eqb acc (existsb (fun b => b) ps)
-      | TTuple ts, VTuple l | TTuple ts, VList l =>
-          Bool.eqb acc (Nat.eqb (length l) (length ts) && forallb (fun b => b) ps)
-      | (TList _ | TTupleVar _ | TSet _ | TDict _ _), _ => Bool.eqb acc (forallb (fun b => b) ps)
+      | TUnion _, _ => Bool.eqb acc (existsb s_acc ps)
+      | TTuple ts, (VTuple l | VList l | VSet l) =>
+          Bool.eqb acc (Nat.eqb (length l) (length ts) && forallb s_acc ps)
+      | TDict false _, VDict d => Bool.eqb acc (forallb (fun kv => is_str (fst kv)) d && forallb s_acc ps)
+      | TDict true _, VDict d =>      (* keys are cast with int(): int keys must do, others may *)
+          (if acc then forallb s_acc ps else true)
+          && (if forallb (fun kv => match fst kv with VInt _ => true | _ => false end) d && forallb s_acc ps then acc else true)
+      | (TList _ | TTupleVar _ | TSet _), _ => Bool.eqb acc (forallb s_acc ps)
       | _, _ => true
       end
   end.
 
-Definition spec_ok (c : case) : bool := sound c && never_rejects_shaped c && compositional c.
+Definition spec_ok (c : tycase) : bool := sound c && never_rejects_shaped c && compositional c.
 
-(* finding classes: the only way the observation fails soundness is a Literal matched by == (1),
-   an unchecked Dict key (2), or both (3) *)
-Definition class_of (c : case) : N :=
-  match c_obs c with
-  | Accepted w =>
-      if conforms (c_ty c) w then 0
-      else if conforms_rx true false (c_ty c) w then 1
-      else if conforms_rx false true (c_ty c) w then 2
-      else if conforms_rx true true (c_ty c) w then 3
-      else 0
-  | _ => 0
-  end%N.
+Definition impl_obs (yl : str -> lres) (t : ty) (v : val) : obs :=
+  if decl_crash t then Crashed else obs_of (impl yl t v).
+
+(* ---- the tie: the model of the pinned tree reproduces every observation of the case ----------------------------- *)
+Definition model_ok (c : tycase) : bool :=
+  let yl := case_yload (c_oracle c) in
+  obs_eqb (impl_obs yl (c_ty c) (c_in c)) (c_obs c)
+  && forallb (fun s => Bool.eqb (is_accepted (impl_obs yl (s_ty s) (s_in s))) (s_acc s))
+             (c_perms c ++ match c_parts c with Some ps => ps | None => [] end)
+  && oracle_consistent (c_oracle c).
+
+(* ---- the guard: the same function the theorems of Properties/C02.v assume to be 0 -------------------------------- *)
+Definition class_of (c : tycase) : N :=
+  let yl := case_yload (c_oracle c) in
+  first_class (class_in yl (c_ty c) (c_in c)
+               :: map (fun s => class_in yl (s_ty s) (s_in s))
+                      (c_perms c ++ match c_parts c with Some ps => ps | None => [] end)).
+
+(* the second kind of case: parse_object({'g': value}) on a parser with keys g.<field> *)
+Inductive case :=
+| TyCase (c : tycase)
+| GroupCase (fields : list (str * ty)) (v : val) (o : obs).
 
 Definition judge1 (c : case) : verdict :=
-  {| v_model := obs_eqb (obs_of (parse_key (case_yload (c_oracle c)) (c_ty c) (c_in c))) (c_obs c)
-                && oracle_consistent (c_oracle c);
-     v_class := class_of c;
-     v_spec := spec_ok c |}.
+  match c with
+  | TyCase c => {| v_model := model_ok c; v_class := class_of c; v_spec := spec_ok c |}
+  | GroupCase fs v o =>
+      let yl := case_yload [] in
+      {| v_model := obs_eqb (obs_of (group_parse yl fs v)) o;
+         v_class := group_class yl fs v;
+         v_spec := match o with Accepted w => group_conforms fs w | Rejected => true | Crashed => false end |}
+  end.
 
 Definition judge (cs : list case) := judge_all judge1 cs.
